@@ -154,6 +154,12 @@ func vh_C06_rt_data() {
 	vAssert(ok && rp.PacketType == sshfx.PacketTypeData && rp.RequestID == p.ID, "filexfer decodes DATA envelope")
 	var x sshfx.DataPacket
 	vAssert(x.UnmarshalPacketBody(&rp.Data) == nil && vBytesEq(x.Data, data), "DATA cross-codec fields")
+	// decoding into a packet value that is being reused (its Data still holds a
+	// longer, or shorter, earlier payload) gives the same packet (added after
+	// seeded change C06-f)
+	rp2, ok2 := vRawBody(b)
+	x2 := sshfx.DataPacket{Data: vHavocBytes(vChoice(n + 4))}
+	vAssert(ok2 && x2.UnmarshalPacketBody(&rp2.Data) == nil && vBytesEq(x2.Data, data), "DATA decoded into a reused packet value")
 	yb, err := sshfx.ComposePacket((&sshfx.DataPacket{Data: data}).MarshalPacket(p.ID, nil))
 	vAssert(err == nil && vBytesEq(yb, ref), "DATA cross-codec bytes")
 	vEmit("wire", b)
